@@ -24,7 +24,7 @@ for p in props:
 m = dict(version=1,
          setup_cmd='./setup.sh',
          hooks=dict(guard='POMEROL_VERIF', enable='none needed: contracts live in /verif, functions are extracted from the unmodified sources', 
-                    baseline_off_cmd='cmake --build /repo/_build && ctest --test-dir /repo/_build -j8 --timeout 900', source_commits=[], add_only=True),
+                    baseline_off_cmd='cmake --build /repo/_build && OMPI_ALLOW_RUN_AS_ROOT=1 OMPI_ALLOW_RUN_AS_ROOT_CONFIRM=1 ctest --test-dir /repo/_build -j8 --timeout 900', source_commits=[], add_only=True),
          engines=[dict(name='cbmc-contracts', path='/verif/check', serves_properties=[c['property_id'] for c in checks],
                        kind_free_text='clang-AST extraction of the real C++ functions to C (tools/ast2c.py), contracts woven from specs/*.c (tools/weave.py), goto-instrument --dfcc contract instrumentation, cbmc SAT back end (tools/run_cbmc.py)')],
          checks=checks, not_applicable=na,
